@@ -1,7 +1,478 @@
-// Package cint interprets the integrated default-chain op language against the real packages (stub).
+// Package cint interprets the integrated default-chain op language (check INT) against the real packages:
+// every rule manager loaded at once (system, flow, isolation, hotspot, circuitbreaker), traffic through api.Entry on
+// the GLOBAL slot chain (no WithSlotChain), api.TraceError / Exit, a registered breaker listener, statistics read
+// from stat.GetResourceNode / stat.InboundNode, system load / cpu through the system_metric injection.
+//
+// Time: cases carry absolute virtual times (>= 1.9e12 ms, i.e. after the wall clock: the package-level inbound node
+// was created at init with the real clock).  When several cases run in one process the interpreter shifts the
+// times of a case by a multiple of 720 720 000 ms so that the case starts more than one array interval (10 s) after
+// everything recorded before; 720 720 000 = 1000·lcm(1..16) is a multiple of every leap-array interval the generator
+// uses (node 10 000, flow statistic intervals, breaker statistic intervals), so bucket starts and slot indices of
+// every array keep their alignment.  A single-case run (every replay) is not shifted at all.
 package cint
 
-import "verifharness/internal/vh"
+import (
+	"errors"
+	"fmt"
+	"reflect"
+	"runtime"
+	"runtime/debug"
+	"sort"
+	"strconv"
+	"strings"
+	"unsafe"
 
-// New returns the interpreter for the integrated pipeline check.
-func New() vh.Interp { return nil }
+	sentinel "github.com/alibaba/sentinel-golang/api"
+	"github.com/alibaba/sentinel-golang/core/base"
+	"github.com/alibaba/sentinel-golang/core/circuitbreaker"
+	"github.com/alibaba/sentinel-golang/core/flow"
+	"github.com/alibaba/sentinel-golang/core/hotspot"
+	"github.com/alibaba/sentinel-golang/core/isolation"
+	"github.com/alibaba/sentinel-golang/core/stat"
+	"github.com/alibaba/sentinel-golang/core/system"
+	"github.com/alibaba/sentinel-golang/core/system_metric"
+	"verifharness/internal/vh"
+)
+
+const (
+	shiftUnit = 720_720_000
+	gapMs     = 20_000
+)
+
+var errBiz = errors.New("biz")
+
+type Interp struct {
+	clk       *vh.Clock
+	live      map[uint64]*base.SentinelEntry
+	all       map[uint64]*base.SentinelEntry // every admitted entry of the case, exited or not (late TraceError)
+	used      map[uint64]bool
+	flowRules []*flow.Rule
+	cbRules   []*circuitbreaker.Rule
+	pending   []string
+	state     map[string]string
+	started   bool
+	flowDone  bool
+	cbDone    bool
+	caseNow   uint64
+	shift     uint64
+	last      uint64
+}
+
+func New() vh.Interp {
+	// deterministic sync.Pool reuse (EntryOptions, EntryContext, TokenResult are pooled): one P, one OS thread, no GC
+	runtime.GOMAXPROCS(1)
+	runtime.LockOSThread()
+	debug.SetGCPercent(-1)
+	vh.Silence()
+	return &Interp{clk: vh.NewClock(1_900_000_000_000), live: map[uint64]*base.SentinelEntry{}}
+}
+
+func (it *Interp) Reset() {
+	// leftovers: the inbound gauge is not time based
+	ids := make([]uint64, 0, len(it.live))
+	for id := range it.live {
+		ids = append(ids, id)
+	}
+	sort.Slice(ids, func(i, j int) bool { return ids[i] < ids[j] })
+	for _, id := range ids {
+		it.live[id].Exit()
+	}
+	it.live = map[uint64]*base.SentinelEntry{}
+	it.used = map[uint64]bool{}
+	it.all = map[uint64]*base.SentinelEntry{}
+	_, _ = circuitbreaker.LoadRules(nil)
+	circuitbreaker.ClearStateChangeListeners()
+	_, _ = flow.LoadRules(nil)
+	_, _ = isolation.LoadRules(nil)
+	_ = hotspot.ClearRules()
+	_ = system.ClearRules()
+	system_metric.SetSystemLoad(system_metric.NotRetrievedLoadValue)
+	system_metric.SetSystemCpuUsage(system_metric.NotRetrievedCpuUsageValue)
+	stat.ResetResourceNodeMap()
+	it.flowRules, it.cbRules, it.pending = nil, nil, nil
+	it.state = map[string]string{}
+	it.started, it.flowDone, it.cbDone = false, false, false
+	it.caseNow, it.shift = 0, 0
+	circuitbreaker.RegisterStateChangeListeners(&listener{it})
+}
+
+func stCh(s circuitbreaker.State) string {
+	switch s {
+	case circuitbreaker.Closed:
+		return "C"
+	case circuitbreaker.HalfOpen:
+		return "H"
+	case circuitbreaker.Open:
+		return "O"
+	}
+	return "?"
+}
+
+type listener struct{ it *Interp }
+
+func (l *listener) OnTransformToClosed(prev circuitbreaker.State, rule circuitbreaker.Rule) {
+	l.it.pending = append(l.it.pending, fmt.Sprintf("%s:%sC", rule.Id, stCh(prev)))
+	l.it.state[rule.Id] = "C"
+}
+
+func (l *listener) OnTransformToOpen(prev circuitbreaker.State, rule circuitbreaker.Rule, snapshot interface{}) {
+	var sn string
+	switch v := snapshot.(type) {
+	case float64:
+		sn = vh.FBits(v)
+	case uint64:
+		sn = "u" + strconv.FormatUint(v, 10)
+	case int:
+		sn = "i" + strconv.Itoa(v)
+	default:
+		sn = fmt.Sprintf("?%T", snapshot)
+	}
+	l.it.pending = append(l.it.pending, fmt.Sprintf("%s:%sO:%s", rule.Id, stCh(prev), sn))
+	l.it.state[rule.Id] = "O"
+}
+
+func (l *listener) OnTransformToHalfOpen(prev circuitbreaker.State, rule circuitbreaker.Rule) {
+	l.it.pending = append(l.it.pending, fmt.Sprintf("%s:%sH", rule.Id, stCh(prev)))
+	l.it.state[rule.Id] = "H"
+}
+
+func rn(k string) string { return "r" + k }
+
+func fbits(s string) float64 {
+	f, ok := vh.ParseFBits(s)
+	if !ok {
+		panic("bad float " + s)
+	}
+	return f
+}
+
+func parseVal(s string) interface{} {
+	switch {
+	case s == "nil":
+		return nil
+	case strings.HasPrefix(s, "i:"):
+		return int(vh.I(s[2:]))
+	case strings.HasPrefix(s, "l:"):
+		return int64(vh.I(s[2:]))
+	case strings.HasPrefix(s, "s:"):
+		return s[2:]
+	case s == "b:1":
+		return true
+	case s == "b:0":
+		return false
+	}
+	panic("bad value " + s)
+}
+
+func (it *Interp) load(kind string, toks []string) string {
+	switch kind {
+	case "sys":
+		rules := make([]*system.Rule, 0, len(toks))
+		for _, t := range toks {
+			p := strings.Split(t, "/")
+			if len(p) != 3 {
+				return "bad-op"
+			}
+			rules = append(rules, &system.Rule{MetricType: system.MetricType(vh.U(p[0])), Strategy: system.AdaptiveStrategy(vh.I(p[1])), TriggerCount: fbits(p[2])})
+		}
+		_, _ = system.LoadRules(rules)
+		return ""
+	case "flow":
+		if it.flowDone {
+			return "bad-op"
+		}
+		it.flowDone = true
+		rules := make([]*flow.Rule, 0, len(toks))
+		for _, t := range toks {
+			f := strings.Split(t, ",")
+			if len(f) != 4 {
+				return "bad-op"
+			}
+			r := &flow.Rule{Resource: rn(f[0]), TokenCalculateStrategy: flow.Direct, ControlBehavior: flow.Reject,
+				Threshold: fbits(f[1]), StatIntervalInMs: uint32(vh.U(f[2]))}
+			if f[3] != "-" {
+				r.RelationStrategy = flow.AssociatedResource
+				r.RefResource = rn(f[3])
+			}
+			rules = append(rules, r)
+		}
+		it.flowRules = rules
+		_, _ = flow.LoadRules(rules)
+		return ""
+	case "iso":
+		rules := make([]*isolation.Rule, 0, len(toks))
+		for i, a := range toks {
+			k := strings.IndexByte(a, ':')
+			if k <= 0 {
+				return "bad-op"
+			}
+			rules = append(rules, &isolation.Rule{ID: strconv.Itoa(i), Resource: rn(a[:k]), MetricType: isolation.Concurrency, Threshold: uint32(vh.U(a[k+1:]))})
+		}
+		_, _ = isolation.LoadRules(rules)
+		return ""
+	case "hot":
+		rules := make([]*hotspot.Rule, 0, len(toks))
+		for _, s := range toks {
+			p := strings.Split(s, ";")
+			if len(p) != 7 || p[1] != "c" {
+				return "bad-op"
+			}
+			r := &hotspot.Rule{Resource: p[0], MetricType: hotspot.Concurrency, ParamIndex: int(vh.I(p[2])), ParamKey: p[3],
+				Threshold: vh.I(p[4]), ParamsMaxCapacity: vh.I(p[5]), SpecificItems: map[interface{}]int64{}}
+			if p[6] != "" {
+				for _, kvs := range strings.Split(p[6], ",") {
+					kv := strings.Split(kvs, "=")
+					if len(kv) != 2 {
+						return "bad-op"
+					}
+					r.SpecificItems[parseVal(kv[0])] = vh.I(kv[1])
+				}
+			}
+			rules = append(rules, r)
+		}
+		_ = hotspot.ClearRules()
+		_, _ = hotspot.LoadRules(rules)
+		return ""
+	case "cb":
+		if it.cbDone {
+			return "bad-op"
+		}
+		it.cbDone = true
+		for i, s := range toks {
+			f := strings.Split(s, ",")
+			if len(f) != 9 {
+				return "bad-op"
+			}
+			it.cbRules = append(it.cbRules, &circuitbreaker.Rule{
+				Id: strconv.Itoa(i), Resource: f[0], Strategy: circuitbreaker.Strategy(vh.U(f[1])),
+				RetryTimeoutMs: uint32(vh.U(f[2])), MinRequestAmount: vh.U(f[3]), StatIntervalMs: uint32(vh.U(f[4])),
+				StatSlidingWindowBucketCount: uint32(vh.U(f[5])), MaxAllowedRtMs: vh.U(f[6]), Threshold: fbits(f[7]), ProbeNum: vh.U(f[8]),
+			})
+		}
+		_, _ = circuitbreaker.LoadRules(it.cbRules)
+		for _, r := range circuitbreaker.GetRules() {
+			it.state[r.Id] = "C"
+		}
+		return strconv.Itoa(len(circuitbreaker.GetRules()))
+	}
+	return "bad-op"
+}
+
+func (it *Interp) decision(b *base.BlockError) string {
+	switch b.BlockType() {
+	case base.BlockTypeSystemFlow:
+		return "block sys"
+	case base.BlockTypeFlow:
+		idx := -1
+		for i, r := range it.flowRules {
+			if base.SentinelRule(r) == b.TriggeredRule() {
+				idx = i
+			}
+		}
+		return fmt.Sprintf("block flow %d", idx)
+	case base.BlockTypeIsolation:
+		idx := "?"
+		if r, ok := b.TriggeredRule().(*isolation.Rule); ok && r != nil {
+			idx = r.ID
+		}
+		return fmt.Sprintf("block iso %s %v", idx, b.TriggeredValue())
+	case base.BlockTypeHotSpotParamFlow:
+		return "block hot"
+	case base.BlockTypeCircuitBreaking:
+		if r, ok := b.TriggeredRule().(*circuitbreaker.Rule); ok && r != nil {
+			return "block cb " + r.Id
+		}
+		return "block cb ?"
+	}
+	return "block other:" + b.BlockType().String()
+}
+
+func slotField(sc *base.SlotChain, name string) reflect.Value {
+	f := reflect.ValueOf(sc).Elem().FieldByName(name)
+	return reflect.NewAt(f.Type(), unsafe.Pointer(f.UnsafeAddr())).Elem()
+}
+
+// ruleOrder prints the package of every rule-check slot of the real global chain, in slice order.
+func ruleOrder() string {
+	var xs []string
+	for _, x := range slotField(sentinel.GlobalSlotChain(), "ruleChecks").Interface().([]base.RuleCheckSlot) {
+		n := strings.TrimPrefix(fmt.Sprintf("%T", x), "*")
+		if i := strings.IndexByte(n, '.'); i >= 0 {
+			n = n[:i]
+		}
+		xs = append(xs, n)
+	}
+	return vh.List(xs)
+}
+
+func node(key string) base.StatNode {
+	if key == "inb" {
+		return stat.InboundNode()
+	}
+	n := stat.GetResourceNode(rn(key))
+	if n == nil {
+		return nil
+	}
+	return n
+}
+
+func (it *Interp) Step(t []string, op string) string {
+	switch t[0] {
+	case "order":
+		if len(t) != 1 {
+			return "bad-op"
+		}
+		return ruleOrder()
+	case "clock":
+		if len(t) != 2 {
+			return "bad-op"
+		}
+		ms, err := strconv.ParseUint(t[1], 10, 64)
+		if err != nil || ms == 0 {
+			return "bad-op"
+		}
+		if !it.started {
+			it.shift = 0
+			if it.last != 0 && ms < it.last+gapMs {
+				d := it.last + gapMs - ms
+				it.shift = (d + shiftUnit - 1) / shiftUnit * shiftUnit
+			}
+			it.started = true
+		} else if ms < it.caseNow {
+			return "bad-op"
+		}
+		it.caseNow = ms
+		it.last = ms + it.shift
+		it.clk.SetMs(it.last)
+		return ""
+	case "load":
+		if len(t) < 2 || !it.started {
+			return "bad-op"
+		}
+		return it.load(t[1], t[2:])
+	case "sysmetric":
+		if len(t) != 3 {
+			return "bad-op"
+		}
+		switch t[1] {
+		case "load":
+			system_metric.SetSystemLoad(fbits(t[2]))
+		case "cpu":
+			system_metric.SetSystemCpuUsage(fbits(t[2]))
+		default:
+			return "bad-op"
+		}
+		return ""
+	case "entry":
+		if len(t) < 5 || !it.started {
+			return "bad-op"
+		}
+		id := vh.U(t[1])
+		if it.used[id] {
+			return "bad-op"
+		}
+		opts := make([]sentinel.EntryOption, 0, 4)
+		switch t[3] {
+		case "in":
+			opts = append(opts, sentinel.WithTrafficType(base.Inbound))
+		case "out":
+			opts = append(opts, sentinel.WithTrafficType(base.Outbound))
+		default:
+			return "bad-op"
+		}
+		opts = append(opts, sentinel.WithBatchCount(uint32(vh.U(t[4]))))
+		var args []interface{}
+		var atts map[interface{}]interface{}
+		for _, s := range t[5:] {
+			if strings.HasPrefix(s, "@") {
+				kv := strings.SplitN(s[1:], "=", 2)
+				if len(kv) != 2 {
+					return "bad-op"
+				}
+				if atts == nil {
+					atts = map[interface{}]interface{}{}
+				}
+				atts[kv[0]] = parseVal(kv[1])
+			} else {
+				args = append(args, parseVal(s))
+			}
+		}
+		if len(args) > 0 {
+			opts = append(opts, sentinel.WithArgs(args...))
+		}
+		if atts != nil {
+			opts = append(opts, sentinel.WithAttachments(atts))
+		}
+		it.used[id] = true
+		e, b := sentinel.Entry(rn(t[2]), opts...)
+		if b != nil {
+			return it.decision(b)
+		}
+		it.live[id] = e
+		it.all[id] = e
+		return "pass"
+	case "trace":
+		if len(t) != 2 || !it.started {
+			return "bad-op"
+		}
+		// also on an exited entry: SetError must be ignored there (its pooled context may already serve another entry)
+		if e := it.all[vh.U(t[1])]; e != nil {
+			sentinel.TraceError(e, errBiz)
+		}
+		return ""
+	case "exit":
+		if len(t) < 2 || len(t) > 3 || (len(t) == 3 && t[2] != "err") || !it.started {
+			return "bad-op"
+		}
+		id := vh.U(t[1])
+		e := it.live[id]
+		if e == nil {
+			return ""
+		}
+		delete(it.live, id)
+		if len(t) == 3 {
+			e.Exit(base.WithError(errBiz))
+		} else {
+			e.Exit()
+		}
+		return ""
+	case "stat":
+		if len(t) != 2 || !it.started {
+			return "bad-op"
+		}
+		n := node(t[1])
+		if n == nil {
+			return "nil"
+		}
+		m, err := n.GenerateReadStat(20, 10000)
+		if err != nil {
+			panic(err)
+		}
+		return fmt.Sprintf("[p=%d b=%d c=%d e=%d rt=%d conc=%d p10=%d b10=%d c10=%d]",
+			n.GetSum(base.MetricEventPass), n.GetSum(base.MetricEventBlock), n.GetSum(base.MetricEventComplete),
+			n.GetSum(base.MetricEventError), n.GetSum(base.MetricEventRt), n.CurrentConcurrency(),
+			m.GetSum(base.MetricEventPass), m.GetSum(base.MetricEventBlock), m.GetSum(base.MetricEventComplete))
+	case "cbstate":
+		if len(t) != 2 {
+			return "bad-op"
+		}
+		var xs []string
+		for _, r := range it.cbRules {
+			if r.Resource != rn(t[1]) {
+				continue
+			}
+			if s, ok := it.state[r.Id]; ok {
+				xs = append(xs, s)
+			}
+		}
+		return vh.List(xs)
+	case "log":
+		if len(t) != 1 {
+			return "bad-op"
+		}
+		xs := it.pending
+		it.pending = nil
+		return vh.List(xs)
+	}
+	return "bad-op"
+}
